@@ -402,7 +402,7 @@ def gen_folding(loader, check, replay_on=True):
                     et = c11.cond_type(ta, tb)
                     exp = c11.cond_value(cond_true, a.ghost["den"], ta, b.ghost["den"], tb)
                     rp2 = ("c09.cond", lambda mdl, ta=ta, tb=tb, ck=ck: {"ta": list(ta), "tb": list(tb), "cond_kind": ck,
-                                                                           "cond": bool(mdl.get("Bc", mdl.get("Vc", 0))),
+                                                                           "cond": bool(mdl.get("Bc", mdl.get("Vc", 0))), "cond_value": int(mdl.get("Vc", 0) or 0),
                                                                            "a": int(mdl.get("a", 0)), "b": int(mdl.get("b", 0))}) if replay_on else None
                     # the live arm is selected
                     check.ob(f"{name}#selects-live-arm", pi, p.ctx.pc, z3.If(cond_true, z3.BoolVal(res is a), z3.BoolVal(res is b)), replay=rp2)
@@ -644,10 +644,19 @@ def replay_cond(a):
     from rzilcompiler.ArchEnum import ArchEnum
     t = RZILTransformer(ArchEnum.HEXAGON)
     ta, tb = tuple(a["ta"]), tuple(a["tb"])
-    c = t.add_op(Number("const_c", 1 if a["cond"] else 0, ValueType(True, 32))) if a["cond_kind"] == "Number" else t.add_op(Bool("True", bool(a["cond"])))
+    cv = a.get("cond_value", 1 if a["cond"] else 0)
+    c = t.add_op(Number("const_c", cv, ValueType(True, 32))) if a["cond_kind"] == "Number" else t.add_op(Bool("True", bool(a["cond"])))
     x, y = t.add_op(Variable("a", ValueType(*ta))), t.add_op(Variable("b", ValueType(*tb)))
     r = t.conditional_expr([c, x, y])
     et = c11.cond_type(ta, tb)
+    clause = a.get("clause", "")
+    if "selects-live-arm" in clause or clause.endswith("value"):
+        # the live arm of a constant condition is the then-arm iff the condition is non-zero
+        live = x if (cv != 0 if a["cond_kind"] == "Number" else a["cond"]) else y
+        node = r
+        while type(node).__name__ == "Cast":
+            node = node.ops[0]
+        return node is not live, f"({cv if a['cond_kind'] == 'Number' else a['cond']} ? a : b) folded to {r}; the live arm is {live}"
     rt = ir.vt(r)
     return rt != tuple(et), f"({a['cond']} ? a:{tname(ta)} : b:{tname(tb)}) folded to {r} typed {tname(rt)}; C11 type of the conditional expression is {tname(et)}"
 
